@@ -126,7 +126,8 @@ NODE_PROPS = {
  "C06": dict(events={"LReplUpdate", "LFlrResp", "EAppendReq", "LClient", "LChangeConfig"}, tags={"C06"}),
  "C07": dict(events={"LClient", "ETask", "LReplUpdate", "LTransfer"}, tags={"C07"}),
  "C08": dict(events={"LChangeConfig", "LReplUpdate", "LClient", "EAppendReq", "LTransferTimeout", "ERestart"}, tags={"C08"}),
- "C09": dict(events={"ESnapRun", "ESnapTaken", "ETask", "ESnapReq", "LFlrSnapInstalled", "LFlrUpdate", "LFlrSend", "ERestart", "LReplUpdate"}, tags={"C09"}),
+ "C09": dict(events={"ESnapRun", "ESnapTaken", "ETask", "ESnapReq", "LFlrSnapInstalled", "LFlrUpdate", "LFlrSend", "ERestart", "LReplUpdate",
+                     "EVoteResult", "ETimeout", "ETimeoutNowReq"}, tags={"C09"}),  # becoming leader initialises the compaction boundary and the views
  "C11": dict(events={"ETimeout", "ETimeoutNowReq", "ETask", "LReplUpdate", "LChangeConfig", "EAppendReq", "LClient"}, tags={"C11"}),
  "C12": dict(events={"ESnapRun", "ESnapTaken", "ETask", "ESnapReq", "ERestart"}, tags={"C12"}),
  "C15": dict(events=None, tags={"C15"}),
@@ -177,13 +178,12 @@ def run_abs(pid, tier, seed, wd):
         if rc != 0 or "R =" not in out:
             broken = "model evaluation failed on %s: %s" % (os.path.basename(f), out[-1200:])
             continue
-        for run_id, code in re.findall(r"\((\d+)%nat,\s*(\d+)%nat\)", out):
-            run_id, code = int(run_id), int(code)
-            if code == 0:
+        for run_id, k1, why in re.findall(r"\(\s*(\d+)%nat,\s*\(\s*(\d+)%nat,\s*(\d+)%nat\s*\)\s*\)", out):
+            run_id, k1, why = int(run_id), int(k1), int(why)
+            if k1 == 0:
                 accepted += 1
                 continue
-            c = code - 1
-            idx, why = c // 1000, c % 1000
+            idx = k1 - 1
             src = os.path.join(wd, "abs_run_%d.txt" % run_id)
             evs = open(src).read().split("\n") if os.path.exists(src) else []
             keep = os.path.join(vlib.ROOT, "replays", "%s_abs_run_%d_seed%s.txt" % (pid, run_id, seed))
@@ -197,6 +197,8 @@ def run_abs(pid, tier, seed, wd):
                                      "event_index": idx, "reason_code": why, "reason": ABS_CODES.get(why, ""), "event": evs[idx] if idx < len(evs) else None,
                                      "history_file": keep, "case_file": f,
                                      "how": "vh raft abs %s %s %s <dir>; coqc evaluates Exec.run V history" % (seed, nseq, nsteps)}})
+    if broken is None and accepted + len(viols) != len(meta["desc"]):
+        broken = "abstract tie: %d histories written, %d results read back" % (len(meta["desc"]), accepted + len(viols))
     for e in meta.get("errors") or []:
         viols.append({"signature": "driver-error " + e[:40], "detail": e, "found": True, "replay": {"property": pid, "kind": "driver error", "what": e}})
     cov = {"abs_histories": len(meta["desc"]), "abs_histories_accepted": accepted, "abs_events": meta["events"], "abs_distribution": meta["dist"],
@@ -495,6 +497,16 @@ reg_node("C16", "Theorems: timeout-now goes only to another voter that is reacha
          "only when the leader is released having seen a higher term; every other ending reports an error and clears the transfer; impossible "
          "requests are refused unchanged; a node told to time out now campaigns with the transfer flag. Two leaders in one term: C01.",
          [])
+
+reg_node("C19", "Theorems (single node, every history of requests, time-outs, tasks, snapshots, leader events and restarts in which the environment "
+         "behaves as stated in InfoInvDefs.env_ok): lastApplied <= commit <= lastLog, firstLog-1 <= snapshot <= lastLog, committed configuration "
+         "not newer than the latest, the latest configuration is the newest configuration entry of log-or-snapshot - as an inductive invariant "
+         "preserved by every event kind - and term, commit index, lastApplied and snapshot index never decrease within one incarnation. "
+         "Monitor: the same ordering on every real node after every simulated event.",
+         ["the environment clauses of InfoInvDefs.env_ok: requests carry consecutive entries and do not contradict an index the receiver knows "
+          "committed (a consequence of C02), a snapshot offered does not contradict such an index and carries the configuration in force at its "
+          "index, replications acknowledge only indices of the leader's log, no snapshot is requested in the window where the committed "
+          "configuration is ahead of the applied index"])
 
 
 # ------------------------------------------------------------------ C15
